@@ -21,66 +21,66 @@ Ltac to_model H :=
 Lemma at_most_once_on_code : forall reenc : str -> str,
   (forall m, (1024 < N.of_nat (length (encode_replace m)))%N ->
              reenc (take 1024 (encode_replace m)) = encode_replace_upto 1024 m) ->
-  forall ip6 handler mw up ip fp evs,
-  Spec.C07.at_most_once (gen_run reenc ip6 handler mw up ip fp init evs) = true.
-Proof. intros reenc H ip6 handler mw up ip fp evs. to_model H. apply Server_proofs.at_most_once. Qed.
+  forall ip6 handler mw up ucf ip fp evs,
+  Spec.C07.at_most_once (gen_run reenc ip6 handler mw up ucf ip fp init evs) = true.
+Proof. intros reenc H ip6 handler mw up ucf ip fp evs. to_model H. apply Server_proofs.at_most_once. Qed.
 
 Lemma trailing_ignored_on_code : forall reenc : str -> str,
   (forall m, (1024 < N.of_nat (length (encode_replace m)))%N ->
              reenc (take 1024 (encode_replace m)) = encode_replace_upto 1024 m) ->
-  forall ip6 handler mw up ip fp s d,
+  forall ip6 handler mw up ucf ip fp s d,
   line_rcvd s = true -> await_titan s = false ->
-  cl_data_received reenc ip6 handler mw up ip fp s d = (set_buf s (buf s ++ d) true, []).
+  cl_data_received reenc ip6 handler mw up (upcall_of ucf) ip fp s d = (set_buf s (buf s ++ d) true, []).
 Proof.
-  intros reenc H ip6 handler mw up ip fp s d L A. to_model H. apply Server_proofs.trailing_ignored; assumption.
+  intros reenc H ip6 handler mw up ucf ip fp s d L A. to_model H. apply Server_proofs.trailing_ignored; assumption.
 Qed.
 
 Lemma refines_on_code : forall reenc : str -> str,
   (forall m, (1024 < N.of_nat (length (encode_replace m)))%N ->
              reenc (take 1024 (encode_replace m)) = encode_replace_upto 1024 m) ->
-  forall ip6 handler mw up ip fp (reads : list (list str)),
-  flat (gen_run reenc ip6 handler mw up ip fp init (map ERead reads)) =
-  flat (gen_run reenc ip6 handler mw up ip fp init [ERead [concat (concat reads)]]).
-Proof. intros reenc H ip6 handler mw up ip fp reads. to_model H. apply Server_proofs.refines. Qed.
+  forall ip6 handler mw up ucf ip fp (reads : list (list str)),
+  flat (gen_run reenc ip6 handler mw up ucf ip fp init (map ERead reads)) =
+  flat (gen_run reenc ip6 handler mw up ucf ip fp init [ERead [concat (concat reads)]]).
+Proof. intros reenc H ip6 handler mw up ucf ip fp reads. to_model H. apply Server_proofs.refines. Qed.
 
 (* ---------------- C01 ---------------- *)
 Lemma single_response_on_code : forall reenc : str -> str,
   (forall m, (1024 < N.of_nat (length (encode_replace m)))%N ->
              reenc (take 1024 (encode_replace m)) = encode_replace_upto 1024 m) ->
-  forall ip6 handler mw up ip fp evs,
-  Spec.C01.clause_single (gen_run reenc ip6 handler mw up ip fp init evs) = true.
-Proof. intros reenc H ip6 handler mw up ip fp evs. to_model H. apply Server_proofs.single_response. Qed.
+  forall ip6 handler mw up ucf ip fp evs,
+  Spec.C01.clause_single (gen_run reenc ip6 handler mw up ucf ip fp init evs) = true.
+Proof. intros reenc H ip6 handler mw up ucf ip fp evs. to_model H. apply Server_proofs.single_response. Qed.
 
 Lemma shape_on_code : forall reenc : str -> str,
   (forall m, (1024 < N.of_nat (length (encode_replace m)))%N ->
              reenc (take 1024 (encode_replace m)) = encode_replace_upto 1024 m) ->
-  forall ip6 handler mw up ip fp evs,
-  Spec.C01.clause_shape (gen_run reenc ip6 handler mw up ip fp init evs) = true.
-Proof. intros reenc H ip6 handler mw up ip fp evs. to_model H. apply Server_proofs.shape. Qed.
+  forall ip6 handler mw up ucf ip fp evs,
+  Spec.C01.clause_shape (gen_run reenc ip6 handler mw up ucf ip fp init evs) = true.
+Proof. intros reenc H ip6 handler mw up ucf ip fp evs. to_model H. apply Server_proofs.shape. Qed.
 
 Lemma faithful_on_code : forall reenc : str -> str,
   (forall m, (1024 < N.of_nat (length (encode_replace m)))%N ->
              reenc (take 1024 (encode_replace m)) = encode_replace_upto 1024 m) ->
   forall ip6 c evs,
   Spec.C01.clause_faithful c evs
-    (gen_run reenc ip6 (fun _ => c_hres c) (c_mw c) (c_upload c) (c_ip c) (c_fp c) init evs) = true.
+    (gen_run reenc ip6 (fun _ => c_hres c) (c_mw c) (c_upload c) (c_upfail c) (c_ip c) (c_fp c) init evs) = true.
 Proof. intros reenc H ip6 c evs. to_model H. apply Server_proofs.faithful. Qed.
 
 Lemma silent_after_lost_on_code : forall reenc : str -> str,
   (forall m, (1024 < N.of_nat (length (encode_replace m)))%N ->
              reenc (take 1024 (encode_replace m)) = encode_replace_upto 1024 m) ->
-  forall ip6 handler mw up ip fp evs,
-  Spec.C01.clause_silent_after_lost evs (gen_run reenc ip6 handler mw up ip fp init evs) false = true.
-Proof. intros reenc H ip6 handler mw up ip fp evs. to_model H. apply Server_proofs.silent_after_lost. Qed.
+  forall ip6 handler mw up ucf ip fp evs,
+  Spec.C01.clause_silent_after_lost evs (gen_run reenc ip6 handler mw up ucf ip fp init evs) false = true.
+Proof. intros reenc H ip6 handler mw up ucf ip fp evs. to_model H. apply Server_proofs.silent_after_lost. Qed.
 
 Lemma obligation_partial_on_code : forall reenc : str -> str,
   (forall m, (1024 < N.of_nat (length (encode_replace m)))%N ->
              reenc (take 1024 (encode_replace m)) = encode_replace_upto 1024 m) ->
   forall ip6 c evs,
   existsb (fun a => match a with AOutOfModel => true | _ => false end)
-          (flat (gen_run reenc ip6 (fun _ => c_hres c) (c_mw c) (c_upload c) (c_ip c) (c_fp c) init evs)) = false ->
+          (flat (gen_run reenc ip6 (fun _ => c_hres c) (c_mw c) (c_upload c) (c_upfail c) (c_ip c) (c_fp c) init evs)) = false ->
   Spec.C01.clause_obligation ip6 c evs
-    (gen_run reenc ip6 (fun _ => c_hres c) (c_mw c) (c_upload c) (c_ip c) (c_fp c) init evs) = true.
+    (gen_run reenc ip6 (fun _ => c_hres c) (c_mw c) (c_upload c) (c_upfail c) (c_ip c) (c_fp c) init evs) = true.
 Proof. intros reenc H ip6 c evs. to_model H. apply Server_proofs.obligation_partial. Qed.
 
 (* ---------------- C04 ---------------- *)
@@ -89,74 +89,74 @@ Lemma gate_on_code : forall reenc : str -> str,
              reenc (take 1024 (encode_replace m)) = encode_replace_upto 1024 m) ->
   forall ip6 c evs,
   Spec.C04.gate c (Spec.C04.expected_url ip6 (stream evs)) evs
-    (gen_run reenc ip6 (fun _ => c_hres c) (c_mw c) (c_upload c) (c_ip c) (c_fp c) init evs) [] false = true.
+    (gen_run reenc ip6 (fun _ => c_hres c) (c_mw c) (c_upload c) (c_upfail c) (c_ip c) (c_fp c) init evs) [] false = true.
 Proof. intros reenc H ip6 c evs. to_model H. apply Server_proofs.gate. Qed.
 
 Lemma no_invocation_without_allow_on_code : forall reenc : str -> str,
   (forall m, (1024 < N.of_nat (length (encode_replace m)))%N ->
              reenc (take 1024 (encode_replace m)) = encode_replace_upto 1024 m) ->
-  forall ip6 handler up ip fp evs,
+  forall ip6 handler up ucf ip fp evs,
   (forall i t, ~ In (EDone i (OMw true t)) evs) ->
-  existsb is_invocation (flat (gen_run reenc ip6 handler true up ip fp init evs)) = false.
+  existsb is_invocation (flat (gen_run reenc ip6 handler true up ucf ip fp init evs)) = false.
 Proof.
-  intros reenc H ip6 handler up ip fp evs. to_model H. apply Server_proofs.no_invocation_without_allow.
+  intros reenc H ip6 handler up ucf ip fp evs. to_model H. apply Server_proofs.no_invocation_without_allow.
 Qed.
 
 Lemma refusal_on_code : forall reenc : str -> str,
   (forall m, (1024 < N.of_nat (length (encode_replace m)))%N ->
              reenc (take 1024 (encode_replace m)) = encode_replace_upto 1024 m) ->
   forall ip6 c evs, c_mw c = true ->
-  valid_reads evs (gen_run reenc ip6 (fun _ => c_hres c) (c_mw c) (c_upload c) (c_ip c) (c_fp c) init evs) false = true ->
+  valid_reads evs (gen_run reenc ip6 (fun _ => c_hres c) (c_mw c) (c_upload c) (c_upfail c) (c_ip c) (c_fp c) init evs) false = true ->
   Spec.C04.refusal c evs
-    (gen_run reenc ip6 (fun _ => c_hres c) (c_mw c) (c_upload c) (c_ip c) (c_fp c) init evs) = true.
+    (gen_run reenc ip6 (fun _ => c_hres c) (c_mw c) (c_upload c) (c_upfail c) (c_ip c) (c_fp c) init evs) = true.
 Proof. intros reenc H ip6 c evs. to_model H. apply Server_proofs.refusal. Qed.
 
 (* ---------------- C15 ---------------- *)
 Lemma not_armed_while_answering_on_code : forall reenc : str -> str,
   (forall m, (1024 < N.of_nat (length (encode_replace m)))%N ->
              reenc (take 1024 (encode_replace m)) = encode_replace_upto 1024 m) ->
-  forall ip6 handler mw up ip fp evs,
-  let s := gen_final reenc ip6 handler mw up ip fp init evs in
+  forall ip6 handler mw up ucf ip fp evs,
+  let s := gen_final reenc ip6 handler mw up ucf ip fp init evs in
   pending s <> [] -> timer s <> TArmed.
 Proof.
-  intros reenc H ip6 handler mw up ip fp evs. to_model H.
-  exact (Server_proofs.not_armed_while_answering ip6 handler mw up ip fp evs).
+  intros reenc H ip6 handler mw up ucf ip fp evs. to_model H.
+  exact (Server_proofs.not_armed_while_answering ip6 handler mw up ucf ip fp evs).
 Qed.
 
 Lemma timeout_response_on_code : forall reenc : str -> str,
   (forall m, (1024 < N.of_nat (length (encode_replace m)))%N ->
              reenc (take 1024 (encode_replace m)) = encode_replace_upto 1024 m) ->
-  forall ip6 handler mw up ip fp evs,
-  let s := gen_final reenc ip6 handler mw up ip fp init evs in
+  forall ip6 handler mw up ucf ip fp evs,
+  let s := gen_final reenc ip6 handler mw up ucf ip fp init evs in
   timer s = TArmed -> sent s = false ->
-  snd (gen_step reenc ip6 handler mw up ip fp s ETimer) = [AWrite timeout_line; AClose].
+  snd (gen_step reenc ip6 handler mw up ucf ip fp s ETimer) = [AWrite timeout_line; AClose].
 Proof.
-  intros reenc H ip6 handler mw up ip fp evs. to_model H.
-  exact (Server_proofs.timeout_response ip6 handler mw up ip fp evs).
+  intros reenc H ip6 handler mw up ucf ip fp evs. to_model H.
+  exact (Server_proofs.timeout_response ip6 handler mw up ucf ip fp evs).
 Qed.
 
 Lemma no_stuck_partial_on_code : forall reenc : str -> str,
   (forall m, (1024 < N.of_nat (length (encode_replace m)))%N ->
              reenc (take 1024 (encode_replace m)) = encode_replace_upto 1024 m) ->
-  forall ip6 handler mw up ip fp evs,
+  forall ip6 handler mw up ucf ip fp evs,
   has_lost evs = false ->
   existsb (fun a => match a with AOutOfModel => true | _ => false end)
-          (flat (gen_run reenc ip6 handler mw up ip fp init evs)) = false ->
-  let s := gen_final reenc ip6 handler mw up ip fp init evs in
+          (flat (gen_run reenc ip6 handler mw up ucf ip fp init evs)) = false ->
+  let s := gen_final reenc ip6 handler mw up ucf ip fp init evs in
   closing s = true \/ timer s = TArmed \/ pending s <> [].
 Proof.
-  intros reenc H ip6 handler mw up ip fp evs. to_model H.
-  exact (Server_proofs.no_stuck_partial ip6 handler mw up ip fp evs).
+  intros reenc H ip6 handler mw up ucf ip fp evs. to_model H.
+  exact (Server_proofs.no_stuck_partial ip6 handler mw up ucf ip fp evs).
 Qed.
 
 Lemma c15_ok_partial_on_code : forall reenc : str -> str,
   (forall m, (1024 < N.of_nat (length (encode_replace m)))%N ->
              reenc (take 1024 (encode_replace m)) = encode_replace_upto 1024 m) ->
-  forall ip6 handler mw up ip fp evs,
+  forall ip6 handler mw up ucf ip fp evs,
   existsb (fun a => match a with AOutOfModel => true | _ => false end)
-          (flat (gen_run reenc ip6 handler mw up ip fp init evs)) = false ->
-  Spec.C15.ok evs (gen_run reenc ip6 handler mw up ip fp init evs) = true.
-Proof. intros reenc H ip6 handler mw up ip fp evs. to_model H. apply Server_proofs.c15_ok_partial. Qed.
+          (flat (gen_run reenc ip6 handler mw up ucf ip fp init evs)) = false ->
+  Spec.C15.ok evs (gen_run reenc ip6 handler mw up ucf ip fp init evs) = true.
+Proof. intros reenc H ip6 handler mw up ucf ip fp evs. to_model H. apply Server_proofs.c15_ok_partial. Qed.
 
 Print Assumptions at_most_once_on_code.
 Print Assumptions trailing_ignored_on_code.
